@@ -40,6 +40,7 @@ SIZE = {
     "pair": 16,
     "var": None,
     "nl": None,
+    "fu64": 8,
 }
 
 # Packing factor (elements per 32-byte chunk) of the basic kinds, None = not packed (composite).
@@ -54,6 +55,7 @@ PACKING = {
     "pair": None,
     "var": None,
     "nl": None,
+    "fu64": 4,
 }
 
 KINDS = tuple(SIZE.keys())
